@@ -1450,6 +1450,36 @@ func (r *RigWD) dbPlacementOpen(e *WDEvent) bool {
 	return false
 }
 
+// raceClass recognises the known check-then-act race between the two streams: the incarnation found downstream under the
+// operation's name was created by a create-collection event whose own handling overlapped a drop of its database by the
+// other stream (the readiness decision was taken before the drop, the creation executed after the database had been
+// re-created), so a collection of a database incarnation that no longer exists was created inside the new one.
+func (r *RigWD) raceClass(dl *wdDelivery) string {
+	e := dl.ev
+	have := dl.collInc[e.Coll]
+	if have == 0 {
+		return ""
+	}
+	r.down.mu.Lock()
+	calls := append([]*wdCall(nil), r.down.calls...)
+	r.down.mu.Unlock()
+	r.mu.Lock()
+	deliv := append([]*wdDelivery(nil), r.deliv...)
+	r.mu.Unlock()
+	for _, d0 := range deliv {
+		if d0.ev.Kind != "createc" || d0.ev.IncColl != have || d0.err != nil {
+			continue
+		}
+		for _, c := range calls[d0.from:min(d0.to, len(calls))] {
+			if c.Ev != d0.ev && c.Kind == "dropdb" && !c.Err && dbOf(c.Ev.DB) == dbOf(d0.ev.DB) && c.Ev.Ts >= d0.ev.Ts {
+				r.s.Probe("create_raced_database_recreation")
+				return "_create_raced_database_recreation"
+			}
+		}
+	}
+	return ""
+}
+
 // judge applies the common rules to one clean delivery.
 func (r *RigWD) judge(dl *wdDelivery, muts []*wdCall, wantKind string, mustApply, newerPresent bool, fields func(*wdCall) string) {
 	known := dl.dbDroppedAfter
@@ -1481,7 +1511,7 @@ func (r *RigWD) judge(dl *wdDelivery, muts []*wdCall, wantKind string, mustApply
 		mdb, mcoll := refMap(r.sc.Mapping, e.DB, e.Coll)
 		mapped := e.Coll != "" && (mdb != dbOf(e.DB) || mcoll != e.Coll)
 		if applied > 0 && newerPresent {
-			s.Violate("C08", "wrong_incarnation", "%s was issued for an incarnation that no longer exists, but it was executed against the newer incarnation of the same name", what)
+			s.Violate("C08", "wrong_incarnation"+r.raceClass(dl), "%s was issued for an incarnation that no longer exists, but it was executed against the newer incarnation of the same name", what)
 			if mapped {
 				s.Violate("C09", "stale_op_under_mapping", "%s (mapped to %s.%s) was issued for an incarnation that no longer exists but was executed: the drop bookkeeping, which is keyed by SOURCE names, did not recognise it", what, mdb, mcoll)
 			}
